@@ -141,6 +141,11 @@ def velShape : Formula → Bool
   | .mul A (.sqrt (.sub (.lit b) B)) => b == 1 && norm A == some lorentzC && norm B == some lorentzInvGamma2
   | _ => false
 
+/-- the `B` of a γ-shaped formula vanishes at `x = 0` (so that γ(0) = 1) -/
+def gammaShapeZero : Formula → Bool
+  | .div (.lit _) (.sqrt (.sub (.lit _) B)) => B.vanishesAtZero
+  | _ => false
+
 /-! ### whole-table checks against this reference -/
 
 def sameDims (a b : List Dim) : Bool := a.all (b.contains ·) && b.all (a.contains ·) && a.length == b.length
@@ -167,7 +172,7 @@ def referenceComplete : Bool :=
 def lorentzOk (gen : List EquivRec) : Bool :=
   match findEquiv gen "lorentz" with
   | some e =>
-    (match e.formula dVelocity dNone with | some f => gammaShape f | none => false) &&
+    (match e.formula dVelocity dNone with | some f => gammaShape f && gammaShapeZero f | none => false) &&
     (match e.formula dNone dVelocity with | some g => velShape g | none => false)
   | none => false
 
